@@ -114,3 +114,28 @@ Definition C41_known (c : C41_case) : N :=
       else 0%N
   | _, _ => 0%N
   end.
+
+(* ------------------------------------------------------------------------------------
+   Second tie: the generated code of a case is compiled against dust_dds in a scratch crate
+   whose main prints the dynamic type description of every generated struct.  Case = the IDL
+   tree, the generated items and the printed descriptions. *)
+Record C41d_case : Type := mkC41d { d_in : list ppitem; d_items : list ritem; d_obs : list obs_struct }.
+
+(* the reading of the derive macro assumed by [shape_of_items] ([view]: first #[dust_dds]
+   attribute only) predicts the real descriptions *)
+Definition C41d_model_ok (c : C41d_case) : bool :=
+  list_agree ps_agrees (flat_map (derive_structs []) (d_items c)) (d_obs c).
+
+(* the property on the real descriptions: names, extensibility, base, member order, keys,
+   optional flags and explicit ids are the declared ones *)
+Definition C41d_oracle_ok (c : C41d_case) : bool :=
+  descriptions_agree false false (preprocess (d_in c)) (d_obs c).
+
+Definition C41d_known (c : C41d_case) : N :=
+  let defs := preprocess (d_in c) in
+  let k2 := known_multi_annot defs in
+  let k4 := known_split defs in
+  let k5 := known_id_nonmutable defs in
+  if descriptions_agree (k2 || k4) k5 defs (d_obs c) then
+    if k2 then 2%N else if k4 then 4%N else if k5 then 5%N else 0%N
+  else 0%N.
